@@ -662,7 +662,8 @@ Definition getitem_slice (st : wstate) (k : option Z) (a b s : option Z) : exn +
 Definition file_waveforms (st : wstate) (i : Z) : exn + list row :=
   if negb (avail st W) then inl EValue
   else if negb (hascol st W) then inl EKey
-  else if (i <? 0) || (n_events st <=? i) then inl EIndex
+  else let i := if i <? 0 then i + n_events st else i in    (* h5py: a negative row index counts from the end *)
+  if (i <? 0) || (n_events st <=? i) then inl EIndex
   else let sl := cell (idx st) i W in
        inr (py_slice (get (rowsOf st) W) (fst sl) (fst sl + snd sl)).
 (* HDF5Reader.get_waveforms(event_id=i, waveform_type=k):
@@ -670,7 +671,8 @@ Definition file_waveforms (st : wstate) (i : Z) : exn + list row :=
 Definition file_waveform (st : wstate) (i k : Z) : exn + row :=
   if negb (avail st W) then inl EValue
   else if negb (hascol st W) then inl EKey
-  else if (i <? 0) || (n_events st <=? i) then inl EIndex
+  else let i := if i <? 0 then i + n_events st else i in
+  if (i <? 0) || (n_events st <=? i) then inl EIndex
   else let sl := cell (idx st) i W in
        if snd sl <=? k then inl EValue
        else inr (nthZ (get (rowsOf st) W) (fst sl + k) []).
